@@ -10,9 +10,9 @@ func init() {
 			{Pkg: "timeheap", Harness: "conc", Config: "noclear", Weight: 2, Note: "same without Clear"},
 		},
 		QuickS: 20, ThoroughS: 600,
-		Rule:   "seq: 3-14 operations drawn from Add(count 0-5 or 2^20) / advance the fake clock by {0,0.1,0.3,1,2.5}s / AveragePerSecond(window in {0.25,1.05,3.05,10.05}s) / Clear, each result compared with a reference list of (fake-clock instant, count) entries. conc: 2-3 adder tasks (1-4 Add calls of distinct powers of two, sleeps between), 1-2 querier tasks (1-4 AveragePerSecond/Clear calls), clock stalls of 0.1s/1s offered at every scheduling point; the reported sum is decoded into the set of counted entries and each entry is checked against its invocation/return interval; two final queries after quiescence. Windows are odd multiples of 50ms and all clock advances multiples of 100ms, so no entry's age ever equals a window exactly. distinct = distinct (operation list, schedule, results) hash; non-trivial = at least two recorded decisions",
-		Real:   []string{"ds/timeheap (TimeHeap: Add, Clear, AveragePerSecond, container/heap ordering)", "time.Now / time.Since inside the bubble (fake clock)"},
-		Stubs:  commonStubs,
+		Rule:  "seq: 3-14 operations drawn from Add(count 0-5 or 2^20) / advance the fake clock by {0,0.1,0.3,1,2.5}s / AveragePerSecond(window in {0.25,1.05,3.05,10.05}s) / Clear, each result compared with a reference list of (fake-clock instant, count) entries. conc: 2-3 adder tasks (1-4 Add calls of distinct powers of two, sleeps between), 1-2 querier tasks (1-4 AveragePerSecond/Clear calls), clock stalls of 0.1s/1s offered at every scheduling point; the reported sum is decoded into the set of counted entries and each entry is checked against its invocation/return interval; two final queries after quiescence. Windows are odd multiples of 50ms and all clock advances multiples of 100ms, so no entry's age ever equals a window exactly. distinct = distinct (operation list, schedule, results) hash; non-trivial = at least two recorded decisions",
+		Real:  []string{"ds/timeheap (TimeHeap: Add, Clear, AveragePerSecond, container/heap ordering)", "time.Now / time.Since inside the bubble (fake clock)"},
+		Stubs: commonStubs,
 		Assume: []string{
 			"RESTRICTED: only TimeHeap is decided. The other fourteen containers of C12 (ShrinkingMap, RandomMap, PriorityQueue, timed.PriorityQueue, Queue, RingBuffer, Stack, BytesFilter, Walker, IndexedStorage, OnChangeMap, SubscriptionManager, generalheap, ...) are pure sequential state machines in the statement: no schedule, clock or fault to simulate; RandomMap draws from the global math/rand which the simulator does not own",
 			"reference: an entry counts for AveragePerSecond(w) at instant t iff t - added < w; result = sum / w.Seconds() (float32, compared with 1e-6 relative tolerance); as documented on the method, entries too old for a query are removed by it and do not count for a later wider window (runs where this matters are counted by the probe wider-window-after-narrower)",
